@@ -58,10 +58,14 @@ RULE = (
     "width 1..67 for each kind deterministically (seed independent), random shards draw the rest. XObject documents: "
     "1-3 pages, 1-4 draws per page from a pool of 1-5 images under names that collide across pages, optional "
     "pre-existing files named like the exports. Inline documents: 1-3 inline images interleaved with text operators, "
-    "ID followed by one white-space byte (any of the six), data followed by LF/CRLF/CR/space and EI followed by "
+    "ID followed by one white-space byte (any of the six), data followed by LF/CRLF/CR/space or, when they do not end in CR/LF and are not ASCII85-terminated, by nothing "
+    "(a good share of those end in odd and even runs of 'E'), and EI followed by "
     "space/LF/CR/CRLF/TAB/FF/NUL or the end of the stream; an enumeration shard family crosses 18 data tails (E, EE, "
     "EOLs, EIx, ~>, NUL ...) x 4 separators x 8 bytes after EI x lengths around 4096/8192; data ending in CR in front "
-    "of the separator LF are a tagged sub-family (known finding); data (and encoded data) never contain 'EI' followed by white space, VT, a delimiter "
+    "of the separator LF are a tagged sub-family (known finding); a single filter is spelled as a bare name or a "
+    "one-element array with abbreviated or full names; with ASCII85 as the only filter (key /F or /Filter) the text "
+    "contains 'EI' directly followed by white space (planted groups, blanks or line ends after them) because there "
+    "the data end at '~>'; everywhere else data (and encoded data) never contain 'EI' followed by white space, VT, a delimiter "
     "or the end of the data, so the end is unambiguous for every reader; unfiltered data have exactly the length the "
     "image parameters imply; data sizes straddle the 4096-byte parser buffer. One evaluation = one drawn image (export + "
     "LTImage) or one text comparison; distinct = distinct (kind,w,h,samples,chain,container); non-trivial = at least "
@@ -102,6 +106,12 @@ def minimums(tier: str) -> Dict[str, int]:
         "inline_data_containing_EI_not_followed_by_ws": 900, "inline_tail_EOL": 400, "inline_tail_E": 300,
         "preexisting_files_checked": 5000, "name_collisions_resolved": 8000, "output_src_checked": 12000,
         "docs_tagged": 40,
+        "inline_a85_text_with_EI_ws_key_Filter": 200, "inline_a85_text_with_EI_ws_key_F": 300,
+        "inline_no_separator": 1200, "inline_no_separator_E_run_odd": 250, "inline_no_separator_E_run_even": 120,
+        "inline_no_separator_filtered": 300,
+        "inline_a85_text_with_EI_ws": 600, "inline_a85_text_with_EI_ws_bare": 250, "inline_a85_text_with_EI_ws_array1": 150,
+        "inline_single_filter_bare_abbr": 800, "inline_single_filter_bare_full": 400,
+        "inline_single_filter_array1_abbr": 600, "inline_single_filter_array1_full": 300,
         "inline_in_later_content_stream": 2500, "inline_after_more_than_4096_bytes_of_earlier_streams": 400,
         "name_collisions_after_sanitising": 500, "docs_names": 250,
         "predictor_png_xobj": 1500, "predictor_tiff2_xobj": 300, "predictor_png_inline": 150, "predictor_tiff2_inline": 40,
@@ -110,7 +120,7 @@ def minimums(tier: str) -> Dict[str, int]:
     m = q if tier == "quick" else {k: v * 8 for k, v in q.items()}
     m.update({
         "seen:xobj_widths": 67, "seen:xobj_heights": 40, "seen:bmp_kind_wmod": 3 * 8, "seen:chains": 60,
-        "seen:inline_after_EI": 8, "seen:inline_sep": 4, "seen:inline_id_ws": 6, "seen:inline_keystyle": 3,
+        "seen:inline_after_EI": 8, "seen:inline_sep": 5, "seen:inline_id_ws": 6, "seen:inline_keystyle": 3,
         "seen:output_types": 3, "seen:inline_tail": 20, "seen:png_row_filters": 15, "seen:predictor_kinds": 5, "seen:inline_stream_index": 3,
     })
     return m
@@ -415,7 +425,10 @@ KEYS = {"W": "Width", "H": "Height", "CS": "ColorSpace", "BPC": "BitsPerComponen
 
 
 def inline_dict(rng: random.Random, kind: str, cskind: str, w: int, h: int, chain: List[str], keystyle: str,
-                parms: Optional[Dict[str, Any]] = None) -> bytes:
+                parms: Optional[Dict[str, Any]] = None, info: Optional[Dict[str, Any]] = None,
+                force_f_key: bool = False) -> bytes:
+    """The key/value pairs between BI and ID.  `info` receives how the filter was spelled: key F or Filter,
+    a single filter as a bare name or as a one-element array, names abbreviated or in full."""
     def key(k: str) -> bytes:
         full = keystyle == "full" or (keystyle == "mixed" and rng.random() < 0.5)
         return b"/" + (KEYS[k] if full else k).encode()
@@ -432,11 +445,16 @@ def inline_dict(rng: random.Random, kind: str, cskind: str, w: int, h: int, chai
     ]
     if chain:
         fn = [name(c, enc.FILTER_NAMES[c]) for c in chain]
-        fk = key("F")
-        if len(fn) == 1 and rng.random() < 0.6:
+        fk = b"/F" if force_f_key else key("F")
+        bare = len(fn) == 1 and rng.random() < 0.55
+        if bare:
             items.append(fk + b" " + fn[0])
         else:
             items.append(fk + b" [" + b" ".join(fn) + b"]")
+        if info is not None:
+            info["fkey"] = fk[1:].decode()
+            info["fform"] = ("bare" if bare else "array1" if len(fn) == 1 else "array") + (
+                ":full" if fn[0][1:].decode() == enc.FILTER_NAMES[chain[0]] else ":abbr")
         if parms:
             # the parameter dictionary of the (single) filter; its own keys have no abbreviations
             pd = b"<< " + b" ".join(b"/%s %d" % (k.encode(), v) for k, v in parms.items()) + b" >>"
@@ -462,8 +480,53 @@ def inline_raw(rng: random.Random, img: Dict[str, Any], sep: bytes) -> Optional[
     return raw
 
 
+A85_CHARS = bytes(range(33, 118))
+
+
+def a85_text_with_EI_ws(rng: random.Random, data: bytes) -> Tuple[bytes, bytes]:
+    """-> (data', text): data' is `data` with one to three 4-byte groups replaced so that their ASCII85 form
+    starts with 'EI'; text is the ASCII85 encoding of data' (EOD '~>' included) with white space inserted directly
+    behind 'EI' (a blank, or a line break so that a line ends in EI) and, sometimes, line wrapping elsewhere.
+    White space is ignored anywhere in ASCII85 data (7.4.3) and the data end at the EOD marker, so the text is
+    conformant although it contains 'EI' followed by white space."""
+    import base64
+
+    b = bytearray(data)
+    assert len(b) >= 4
+    for _ in range(rng.randint(1, 3)):
+        o = 4 * rng.randrange(len(b) // 4)
+        grp = b"EI" + bytes(rng.choice(A85_CHARS) for _ in range(3))
+        b[o:o + 4] = base64.a85decode(b"<~" + grp + b"~>", adobe=True)
+    text = base64.a85encode(bytes(b), adobe=True)[2:-2]
+    out = bytearray()
+    i = 0
+    n_ei = 0
+    col = 0
+    wrap = rng.choice([0, 0, 40, 64])
+    while i < len(text):
+        if text[i:i + 2] == b"EI" and (n_ei == 0 or rng.random() < 0.7):
+            out += b"EI" + rng.choice([b" ", b"\n", b"\r\n", b"\t", b"\r", b" \n"])
+            n_ei += 1
+            i += 2
+            col = 0
+            continue
+        out.append(text[i])
+        i += 1
+        col += 1
+        if wrap and col >= wrap:
+            out += b"\n"
+            col = 0
+    assert n_ei >= 1
+    return bytes(b), bytes(out) + b"~>"
+
+
 AFTER_EI = [b" ", b"\n", b"\r", b"\r\n", b"\t", b"\x0c", b"\x00", b""]  # b"" = end of the content stream
 SEPS = [b"\n", b"\r\n", b"\r", b" "]
+NO_SEP = b""  # EI directly behind the data (legal for binary data, ISO 32000-1 8.9.7); never behind data ending in CR/LF
+
+
+def e_run(data: bytes) -> int:
+    return len(data) - len(data.rstrip(b"E"))
 ID_WS = [b" ", b"\n", b"\r", b"\t", b"\x0c", b"\x00"]
 
 
@@ -502,8 +565,9 @@ def build_inline_case(rng: random.Random, items: List[Dict[str, Any]], fam: str 
     for i, it in enumerate(items):
         img = it["img"]
         cskind = img.get("cskind", img["kind"])
+        finfo: Dict[str, Any] = {}
         d = inline_dict(rng, img["kind"], cskind, img["w"], img["h"], img["chain"], it["keystyle"],
-                        predictor_parms(img) if img.get("pred") else None)
+                        predictor_parms(img) if img.get("pred") else None, finfo)
         if it["id_ws"] == b"\r" and it["raw"][:1] == b"\n":
             it["id_ws"] = b" "  # 'ID CR LF' could be read as ID followed by one end-of-line marker
         body = b"BI " + d + (b" " if rng.random() < 0.7 else b"\n") + b"ID" + it["id_ws"] + it["raw"] + it["sep"] + b"EI" + it["after"]
@@ -543,7 +607,8 @@ def build_inline_case(rng: random.Random, items: List[Dict[str, Any]], fam: str 
         draws.append({"page": 0, "name": None, "kind": img["kind"], "cskind": cskind, "w": img["w"], "h": img["h"],
                       "data": img["data"], "bbox": bbox, "chain": img["chain"], "inline": True, "sep": it["sep"],
                       "rawlen": len(it["raw"]), "pred": img.get("pred"),
-                      "feat": {"keystyle": it["keystyle"], "id_ws": it["id_ws"], "after": it["after"], "wrap": wrap}})
+                      "feat": {"keystyle": it["keystyle"], "id_ws": it["id_ws"], "after": it["after"], "wrap": wrap,
+                               "fkey": finfo.get("fkey"), "fform": finfo.get("fform"), "a85_ei": bool(it.get("a85_ei"))}})
         if tag is None and not last_eof and rng.random() < 0.25:
             # an image XObject painted after the inline image must come out as well
             xim = gen_image(rng, w=rng.randint(1, 20), h=rng.randint(1, 10))
@@ -607,6 +672,20 @@ def build_inline_case(rng: random.Random, items: List[Dict[str, Any]], fam: str 
 def gen_inline_item(rng: random.Random, *, after: Optional[bytes] = None, sep: Optional[bytes] = None,
                     keystyle: Optional[str] = None, big: bool = False) -> Dict[str, Any]:
     """One inline image whose raw bytes are free of end markers (retries with fresh samples)."""
+    if not big and rng.random() < 0.12:
+        # ASCII85 as the first filter (key /F or /Filter): the data end at '~>', so 'EI' followed by white space may
+        # occur inside the text (the only place where the generator writes such a sequence before the real EI)
+        kind = rng.choice(["gray8", "rgb8", "gray1"])
+        w, h = rng.randint(1, 67), rng.randint(1, 12)
+        while row_bytes(kind, w) * h < 4:
+            w, h = rng.randint(4, 67), rng.randint(1, 12)
+        img = gen_image(rng, kind, w, h, ["A85"], rng.choice(["random", "struct", "const0"]))
+        img["pred"] = None
+        img["data"], raw = a85_text_with_EI_ws(rng, img["data"])
+        return {"img": img, "raw": raw, "sep": sep if sep is not None else rng.choice(SEPS), "id_ws": rng.choice(ID_WS),
+                "after": after if after is not None else rng.choice(AFTER_EI[:7]),
+                "keystyle": keystyle or rng.choice(["abbr", "abbr", "full", "mixed"]),
+                "wrap": rng.choice(["q", "q", "qtext"]), "a85_ei": True}
     for _ in range(200):
         kind = rng.choice(["gray8", "gray8", "rgb8", "gray1", "dct"])
         r = rng.random()
@@ -633,11 +712,19 @@ def gen_inline_item(rng: random.Random, *, after: Optional[bytes] = None, sep: O
         if kind == "dct" and chain == ["DCT"]:
             img["data"] = unmark(img["data"])
         s = sep if sep is not None else rng.choice(SEPS)
+        if sep is None and chain[:1] != ["A85"] and rng.random() < 0.2:
+            # no white space between the data and EI; ASCII85-first data keep one (their EOD is followed by white space)
+            s = NO_SEP
+            if img["chain"] in ([], ["DCT"]) and kind != "dct" and rng.random() < 0.65:
+                k = min(rng.choice([1, 1, 2, 3, 4, 5]), len(img["data"]))
+                img["data"] = unmark(img["data"][:len(img["data"]) - k] + b"E" * k)  # odd and even runs of E before EI
         raw = inline_raw(rng, img, s)
         if raw is None:
             continue
         if raw.endswith(b"\r") and s == b"\n":
             continue  # tagged sub-family only (TAG_CR_LF)
+        if s == NO_SEP and raw[-1:] in (b"\r", b"\n"):
+            continue  # an end-of-line marker there could be the separator as well as data
         ws = rng.choice(ID_WS)
         return {"img": img, "raw": raw, "sep": s, "id_ws": ws,
                 "after": after if after is not None else rng.choice(AFTER_EI[:7]),
@@ -1050,8 +1137,23 @@ def _record(case: Dict[str, Any], rec, extra_see: Optional[Dict[str, Any]] = Non
             f = dr["feat"]
             rec.see("inline_after_EI", repr(f["after"]) if f["after"] else "end-of-stream")
             rec.see("inline_sep", repr(dr["sep"]))
+            if dr["sep"] == NO_SEP:
+                rec.count("inline_no_separator")
+                if _raw_level(dr):
+                    n = e_run(dr["data"])
+                    if n:
+                        rec.count("inline_no_separator_E_run_" + ("odd" if n % 2 else "even"))
+                else:
+                    rec.count("inline_no_separator_filtered")
             rec.see("inline_id_ws", repr(f["id_ws"]))
             rec.see("inline_keystyle", f["keystyle"])
+            if f.get("fform") and len(dr["chain"]) == 1:
+                rec.count("inline_single_filter_" + f["fform"].replace(":", "_"))
+                rec.see("inline_single_filter_spelling", "%s %s %s" % (f["fkey"], f["fform"], dr["chain"][0]))
+            if f.get("a85_ei"):
+                rec.count("inline_a85_text_with_EI_ws")
+                rec.count("inline_a85_text_with_EI_ws_" + f["fform"].split(":")[0])
+                rec.count("inline_a85_text_with_EI_ws_key_" + f["fkey"])
             if f.get("stream"):
                 rec.count("inline_in_later_content_stream")
                 rec.see("inline_stream_index", f["stream"])
@@ -1155,7 +1257,7 @@ def run_shard(spec: Dict[str, Any], rec) -> None:
         raise ValueError(fam)
 
 
-TAILS = [b"", b"E", b"EE", b"\n", b"\r", b"\r\n", b"\n\n", b"\n\r", b"E\n", b"\nE", b" ", b"I", b"EIx", b"xEI\x80", b"~>", b"~", b"\x00", b"E\r", b"\t"]
+TAILS = [b"", b"E", b"EE", b"EEE", b"xEEEE", b"\n", b"\r", b"\r\n", b"\n\n", b"\n\r", b"E\n", b"\nE", b" ", b"I", b"EIx", b"xEI\x80", b"~>", b"~", b"\x00", b"E\r", b"\t"]
 
 
 def _run_inline_enum(spec: Dict[str, Any], rec) -> None:
@@ -1166,7 +1268,7 @@ def _run_inline_enum(spec: Dict[str, Any], rec) -> None:
     # 4096, 8192: these lengths put 'E', 'I' and the byte after them on either side of a boundary
     lens = [1, 2, 3, 5, 17, 4092, 4093, 4094, 4095, 4096, 4097, 8190, 8191, 9001]
     for tail in TAILS:
-        for sep in SEPS:
+        for sep in SEPS + [NO_SEP]:
             for after in AFTER_EI:
                 combos.append((tail, sep, after))
     k = 0
@@ -1186,6 +1288,8 @@ def _run_inline_enum(spec: Dict[str, Any], rec) -> None:
                     continue
             if data.endswith(b"\r") and sep == b"\n":
                 continue  # tagged sub-family
+            if sep == NO_SEP and data[-1:] in (b"\r", b"\n"):
+                continue  # ambiguous between data and separator
             img = {"kind": "gray8", "w": len(data), "h": 1, "data": data, "chain": [], "pattern": "enum"}
             # position the data so that the end marker meets the 4096-byte buffer boundary in different ways
             item = {"img": img, "raw": data, "sep": sep, "id_ws": ID_WS[k % len(ID_WS)], "after": after,
